@@ -56,19 +56,53 @@ def generate(ctx):
 # API actor: (name, needs, function(bnp, obj) -> result)
 
 def _api():
-    def ints_text(b, table, fmt):
+    def _int_col(table, fmt):
         cols = [f for f, k in fmt.fields if k in ("int", "sint", "pos1")]
-        if not cols:
+        return None if not cols else [int(v) for v in np.asarray(getattr(table, cols[0])).tolist()]
+
+    def ints_text(b, table, fmt):
+        v = _int_col(table, fmt)
+        if not v:
             return None
         from bionumpy.io.strops import ints_to_strings
-        return ints_to_strings(np.asarray(getattr(table, cols[0])) - 3)      # negative numbers included
+        return ints_to_strings(np.asarray(v) - 3)      # negative numbers included
+
+    def ints_text_plus(b, table, fmt):
+        # '+'-signed and unsigned numbers, no negative one in the batch
+        v = _int_col(table, fmt)
+        if not v:
+            return None
+        return b.as_encoded_array([("+" if i % 2 == 0 else "") + str(abs(x)) for i, x in enumerate(v)])
+
+    def ints_text_unsigned(b, table, fmt):
+        v = _int_col(table, fmt)
+        if not v:
+            return None
+        return b.as_encoded_array([str(abs(x)) for x in v])
+
+    def _float_col(table, fmt):
+        cols = [f for f, k in fmt.fields if k == "float"]
+        return None if not cols else [float(v) for v in np.asarray(getattr(table, cols[0]), dtype=float).tolist()]
 
     def floats_text(b, table, fmt):
-        cols = [f for f, k in fmt.fields if k == "float"]
-        if not cols:
+        v = _float_col(table, fmt)
+        if not v:
             return None
         from bionumpy.io.strops import float_to_strings
-        return float_to_strings(np.asarray(getattr(table, cols[0]), dtype=float))
+        return float_to_strings(np.asarray(v, dtype=float))
+
+    def floats_text_positive(b, table, fmt):
+        # decimal points but no minus sign in the batch
+        v = _float_col(table, fmt)
+        if not v:
+            return None
+        return b.as_encoded_array([repr(abs(x) + 0.5) for x in v])
+
+    def floats_text_scientific(b, table, fmt):
+        v = _float_col(table, fmt)
+        if not v:
+            return None
+        return b.as_encoded_array([("%.2e" % (x + 0.25)).replace("e+0", "e").replace("e-0", "e-").replace("e+", "e") for x in v])
 
     def intervals(b, table, fmt):
         if not all(x in fmt.field_names() for x in ("chromosome", "start", "stop")):
@@ -116,6 +150,9 @@ def _api():
         return x.tolist()
 
     return [("str_to_int", ints_text, f_str_to_int), ("str_to_float", floats_text, f_str_to_float),
+            ("str_to_int_plus_signed", ints_text_plus, f_str_to_int), ("str_to_int_unsigned", ints_text_unsigned, f_str_to_int),
+            ("str_to_float_positive", floats_text_positive, f_str_to_float),
+            ("str_to_float_scientific", floats_text_scientific, f_str_to_float),
             ("sort_intervals", intervals, f_sort), ("merge_intervals", intervals, f_merge),
             ("get_boolean_mask", intervals, f_mask), ("get_pileup", intervals, f_pileup),
             ("get_reverse_complement", dna, f_revcomp), ("get_kmers", dna, f_kmers),
